@@ -32,7 +32,12 @@ META = {
             "relative path after SFTPClient.chdir(dir); absolute path after chdir}: the served tree then holds "
             "three same-named files with different contents (/t, /sub/t, /sub/sub/t) of which exactly one is "
             "named by the call; the twin tree gets the os.* call on that one file and all three files are "
-            "compared.  Oracle: os.stat (mode, size, "
+            "compared.  Dimension 'kind of the named file' (both tiers: every case of the quick grid with content "
+            "size <= 4096, all four vias) x {symbolic link to a regular file}: the name given to the call is a "
+            "relative symlink 't' -> 'real' in the served directory; the twin directory has the same link and gets "
+            "the os.* call on the LINK path (os.chmod/chown/utime/truncate follow symlinks by default); the link's "
+            "target is compared like any file, and the link itself (os.lstat: still a link to the same target, uid, "
+            "gid, integer mtime) must equal the twin's link.  Oracle: os.stat (mode, size, "
             "uid, gid, integer times) and the file bytes equal the twin's.",
     "note": "runs as root on tmpfs (/dev/shm): chown to foreign ids works, mode bits judged via os.stat",
     "design_ref": "4/C31",
@@ -109,6 +114,18 @@ def pathform_cases():
         for form in PATH_FORMS:
             out.append((group, via, dict(p, pathform=form)))
     return out
+
+
+def filekind_cases():
+    """Every case of the quick grid with content size <= 4096, the name given to the call being a symlink."""
+    return [(group, via, dict(p, filekind="symlink-to-file")) for group, via, p in cases("quick")
+            if p["size"] <= 4096]
+
+
+def link_snapshot(path):
+    st = os.lstat(path)
+    return {"is_link": os.path.islink(path), "target": os.readlink(path) if os.path.islink(path) else None,
+            "uid": st.st_uid, "gid": st.st_gid, "mtime": int(st.st_mtime)}
 
 
 def prepare(path, data, mode0):
@@ -216,10 +233,11 @@ def changes_something(group, p):
 
 def run_case(base, idx, case, acc):
     group, via, p = case
-    if "pathform" not in p:
+    if "pathform" not in p and "filekind" not in p:
         return run_case_1(base, idx, case, acc)
-    # a path-form case: a failure is attributed to the path form only when the same request with
-    # the default form (relative name, no chdir, one file) passes; otherwise it is reported as that
+    # a path-form / file-kind case: a failure is attributed to the path form (file kind) only when the same
+    # request with the default form (relative name, no chdir, one regular file) passes; otherwise it is
+    # reported as that
     tmp = core.Acc()
     run_case_1(base, idx, case, tmp)
     acc.evaluations += tmp.evaluations
@@ -227,10 +245,10 @@ def run_case(base, idx, case, acc):
     acc.samples += tmp.samples[:max(0, acc.MAX_SAMPLES - len(acc.samples))]
     if tmp.violations:
         plain = core.Acc()
-        q = {k: v for k, v in p.items() if k != "pathform"}
+        q = {k: v for k, v in p.items() if k not in ("pathform", "filekind")}
         run_case_1(base, "%sp" % idx, (group, via, q), plain)
         if plain.violations:
-            acc.count("path-form cases failing with the default path form as well (reported as that)")
+            acc.count("path-form / file-kind cases failing with the default form as well (reported as that)")
         for v in (plain.violations or tmp.violations):
             acc.violation(v["key"], v["detail"], v["replay"])
 
@@ -244,7 +262,11 @@ def run_case_1(base, idx, case, acc):
     os.mkdir(served_root)
     os.mkdir(twin_root)
     form = p.get("pathform")
-    if form is None:
+    kind = p.get("filekind")
+    if kind is not None:
+        # the call names the link "t"; the file it stands for is "real" in the same directory
+        tree, target = ["real"], "real"
+    elif form is None:
         tree, target = ["t"], "t"
     else:
         tree, target = TREE, PATH_FORMS[form][2]
@@ -258,9 +280,15 @@ def run_case_1(base, idx, case, acc):
             for root in (served_root, twin_root):
                 os.makedirs(os.path.dirname(os.path.join(root, rel)), exist_ok=True)
                 prepare(os.path.join(root, rel), d_rel, p["mode0"])
+        twin_named = twin
+        if kind is not None:
+            for root in (served_root, twin_root):
+                os.symlink("real", os.path.join(root, "t"))
+                os.utime(os.path.join(root, "t"), T0, follow_symlinks=False)
+            twin_named = os.path.join(twin_root, "t")   # os.* follow the link, as they do by default
         ref_err = None
         try:
-            apply_twin(group, p, twin)
+            apply_twin(group, p, twin_named)
         except OSError as e:
             ref_err = e
         client, lb = R.loop_client(served_root)
@@ -279,6 +307,8 @@ def run_case_1(base, idx, case, acc):
         viaKey = {"path": "by-path", "handle-buffered-write": "by-handle-after-buffered-write"}.get(via, "by-handle")
         if form is not None:
             viaKey += ":" + form + "-path"
+        if kind is not None:
+            viaKey += ":" + kind
         replay = {"group": group, "via": via, "p": p}
         detail = {"case": {"group": group, "via": via, "params": p}}
         if form is not None:
@@ -312,6 +342,13 @@ def run_case_1(base, idx, case, acc):
                           dict(detail, first_difference_at=first, served_prefix=gbytes[:16],
                                twin_prefix=wbytes[:16], initial_prefix=data[:16]), replay)
             return
+        if kind is not None:
+            l_got = link_snapshot(os.path.join(served_root, "t"))
+            l_want = link_snapshot(os.path.join(twin_root, "t"))
+            if l_got != l_want:
+                acc.violation("link-itself-differs:%s:%s" % (group, viaKey),
+                              dict(detail, served_link=l_got, twin_link=l_want), replay)
+                return
         for rel in tree:
             if rel == target:
                 continue
@@ -345,7 +382,9 @@ def main(tier):
         "case = (attribute group, by path | by handle opened r+ | r | r+ with an unflushed buffered write "
         "(size group), parameters) from the stated grid, plus the path-form dimension (absolute path | relative "
         "path after chdir | absolute path after chdir, in a tree with three same-named files) over the by-path "
-        "and handle-r+ cases of the quick grid with content size <= 4096; "
+        "and handle-r+ cases of the quick grid with content size <= 4096, plus the file-kind dimension (the name "
+        "given to the call is a symbolic link to the regular file; os.* on the twin's link path follow it; target "
+        "and link compared) over all cases of the quick grid with content size <= 4096; "
         "every case run once on fresh files; nontrivial = distinct case whose requested value differs "
         "from the file's initial value (target size != size, mode != initial mode, owner != root; "
         "times and combined requests always)",
@@ -353,9 +392,11 @@ def main(tier):
          "synchronous loopback: server processes each request packet inside the client's send()"])
     grid = cases(tier)
     forms = pathform_cases()
-    cs = list(enumerate(grid + forms))
+    kinds = filekind_cases()
+    cs = list(enumerate(grid + forms + kinds))
     ck.merge(core.pmap(enum.chunks(cs, 64), run_chunk))
     ck.extra["bound"] = {"cases": len(cs), "grid_cases": len(grid), "path_form_cases": len(forms),
+                         "file_kind_cases": len(kinds), "file_kinds": ["regular file", "symlink-to-file"],
                          "path_forms": {k: list(v) for k, v in PATH_FORMS.items()}}
     return ck.finish()
 
